@@ -127,7 +127,7 @@ impl Check for C08 {
         "C08"
     }
     fn ncases(&self, tier: Tier) -> u64 {
-        tier.sz(800, 12000)
+        tier.sz(3200, 60000)
     }
     fn rule(&self) -> &'static str {
         "per case one generated grammar (nullable-heavy half of the time: empty alternatives first/middle/last, chains of empties, empty start) and 8 inputs over a synthetic text with gaps (so 'end of previous lexeme' != 'start of next lexeme'); parse_actions with one logging closure per production, recovery off and CPCT+ on; offline log checker: each value produced once and consumed at most once, rule/arity/argument kinds match the production, log order == post-order of the final tree, span == [start of first derived lexeme, end of last] (zero-length if none), param passed through, action-built tree == parse_map tree. Non-trivial = parse with >= 1 reduction that derives no lexeme; distinct by (grammar, input)."
@@ -140,7 +140,7 @@ impl Check for C08 {
         ]
     }
     fn floor(&self, tier: Tier) -> u64 {
-        tier.sz(800, 10000)
+        tier.sz(1600, 20000)
     }
     fn required_counters(&self, _t: Tier) -> Vec<&'static str> {
         vec!["action_invocations", "empty_yield_reductions", "reductions_with_empty_first_child", "parses_through_repair_replay", "trees_compared_with_parse_map", "spans_checked"]
